@@ -3,6 +3,7 @@ per call at its return (also on the exception path)."""
 import signal
 import warnings
 
+import cspuz
 from cspuz import Solver
 from . import dx as DX
 from .export import sol_of
@@ -24,7 +25,38 @@ def run_scenario(steps, backend="z3", limit_s=20):
         _z3_limit()
     solver = Solver()
     vs = []
+    touched, limited = [], False
+    saved = {k: getattr(cspuz.config, k) for k in ("solver_timeout",)}
     signal.signal(signal.SIGALRM, _alarm)
+    try:
+        return _run(steps, backend, limit_s, solver, vs, events, touched, limited)
+    finally:
+        for k, v in saved.items():
+            setattr(cspuz.config, k, v)
+
+
+def _key_args(form, xs):
+    """the ways a caller hands variables to add_answer_key ("any nesting of iterables")"""
+    if form == "list":
+        return (xs,)
+    if form == "tuple":
+        return (tuple(xs),)
+    if form == "gen":
+        return ((x for x in xs),)
+    if form == "map":
+        return (map(lambda x: x, xs),)
+    if form == "star":
+        return tuple(xs)
+    if form == "mixed":
+        h = len(xs) // 2
+        return ([xs[:h], (x for x in xs[h:])],)
+    raise ValueError(form)
+
+
+KEY_FORMS = ("list", "gen", "star", "tuple", "map", "mixed")
+
+
+def _run(steps, backend, limit_s, solver, vs, events, touched, limited):
     for st in steps:
         a = st["a"]
         if a == "bool_var":
@@ -43,15 +75,24 @@ def run_scenario(steps, backend="z3", limit_s=20):
                 ev["status"], ev["exc"] = "exc", type(e).__name__
             events.append(ev)
         elif a in ("add_key", "add_key_all"):
-            ids = list(range(len(vs))) if a == "add_key_all" else [st["id"]]
-            ev = {"ev": "add_key", "ids": ids, "status": "ok", "exc": ""}
+            ids = list(range(len(vs))) if a == "add_key_all" else (st.get("ids") or [st["id"]])
+            form = KEY_FORMS[(len(events) + sum(ids) + len(ids)) % len(KEY_FORMS)]
+            ev = {"ev": "add_key", "ids": ids, "status": "ok", "exc": "", "form": form}
             try:
-                solver.add_answer_key([vs[i] for i in ids])
+                solver.add_answer_key(*_key_args(form, [vs[i] for i in ids]))
             except Exception as e:  # noqa
                 ev["status"], ev["exc"] = "exc", type(e).__name__
             events.append(ev)
+        elif a == "config":
+            # a stuttering step of SolverSM: an option that must not change any verdict
+            setattr(cspuz.config, st["key"], st["value"])
+            touched.append(st["key"])
+            limited = limited or st["key"] == "solver_timeout"
+            events.append({"ev": "config", "key": st["key"]})
         elif a in ("find_answer", "solve"):
             ev = {"ev": a, "status": "ok", "exc": "", "ret": False}
+            if "w" in st:
+                ev["w"] = st["w"]
             signal.alarm(limit_s)
             try:
                 with warnings.catch_warnings():
@@ -67,6 +108,8 @@ def run_scenario(steps, backend="z3", limit_s=20):
                 ev["status"], ev["exc"] = "exc", type(e).__name__
                 if type(e).__name__ == "Z3Exception" and "model is not available" in str(e):
                     ev["exc"] = "Z3TimeLimit"
+                if limited and type(e).__name__ in ("Z3Exception", "TimeoutExpired", "TimeoutError"):
+                    ev["exc"] = "ConfiguredTimeLimit"   # a loud refusal under a configured limit
             finally:
                 signal.alarm(0)
             ev.update(sol_of(vs))
